@@ -85,6 +85,15 @@ Theorem C20_holds : forall c, valid c -> holds c (run_model c) = [].
 Proof. exact holds_model. Qed.
 Print Assumptions C20_holds.
 
+(* the hypotheses of C20_holds as a boolean, computed by the driver for every evaluated case *)
+Theorem C20_validb_valid : forall c, validb c = true -> valid c.
+Proof. exact validb_valid. Qed.
+Print Assumptions C20_validb_valid.
+
+Theorem C20_covered_cases : forall c, validb c = true -> holds c (run_model c) = [].
+Proof. intros c H. apply holds_model. apply validb_valid. exact H. Qed.
+Print Assumptions C20_covered_cases.
+
 (* ---- the behaviour before commit 6cff3cf (D8: stop() without server_close() and join) ---- *)
 Theorem C20_refuted_D8_http_stop_without_close :
   exists h, seq_holds h (hseq false false hinit h) (spec_run false h) <> [].
